@@ -1147,12 +1147,12 @@ theorem pres_ioCb (st : St) (s : PollSlot) : Pres st (ioCb st s) := by
     · exact pres_invokeWatch _ _ _ _
   · exact Pres.refl _
 
-theorem pres_ioLoop (fuel : Nat) : ∀ (st : St) (idx : Nat), Pres st (ioLoop fuel st idx) := by
+theorem pres_ioLoopT (fuel : Nat) : ∀ (st : St) (idx : Nat), Pres st (ioLoopT fuel st idx).1 := by
   induction fuel with
-  | zero => intro st idx; unfold ioLoop; exact pres_outOfFuel st
+  | zero => intro st idx; unfold ioLoopT; exact pres_outOfFuel st
   | succ n ih =>
     intro st idx
-    unfold ioLoop
+    unfold ioLoopT
     split
     · exact Pres.refl _
     · split
@@ -1162,6 +1162,8 @@ theorem pres_ioLoop (fuel : Nat) : ∀ (st : St) (idx : Nat), Pres st (ioLoop fu
         · split
           · exact ih _ _
           · exact (pres_ioCb _ _).trans (ih _ _)
+
+theorem pres_ioLoop (fuel : Nat) (st : St) (idx : Nat) : Pres st (ioLoop fuel st idx) := pres_ioLoopT fuel st idx
 
 theorem grow_foldl_raiseSig (l : List Int) : ∀ st : St, Grow st (l.foldl raiseSig st) := by
   induction l with
@@ -1914,7 +1916,8 @@ theorem pollScan_exact (st : St) (idx : Nat) (h : idx < st.pfd.length) :
 /-- A cancelled entry (`fd == -1`) is skipped by the descriptor loop. -/
 theorem ioLoop_skips_cancelled (fuel : Nat) (st : St) (idx : Nat) (hok : st.isOk = true) (hlt : idx < st.pfd.length)
     (hfd : (st.pfd.getD idx default).fd = -1) : ioLoop (fuel + 1) st idx = ioLoop fuel st (idx + 1) := by
-  rw [ioLoop]
+  unfold ioLoop
+  rw [ioLoopT]
   simp only [hok, Bool.not_true, Bool.false_eq_true, if_false, hfd, if_true]
   rw [if_neg (by omega)]
 
@@ -1922,7 +1925,8 @@ theorem ioLoop_skips_cancelled (fuel : Nat) (st : St) (idx : Nat) (hok : st.isOk
 theorem ioLoop_skips_quiet (fuel : Nat) (st : St) (idx : Nat) (hok : st.isOk = true) (hlt : idx < st.pfd.length)
     (hfd : (st.pfd.getD idx default).fd ≠ -1) (hr : (st.pfd.getD idx default).revents = some 0) :
     ioLoop (fuel + 1) st idx = ioLoop fuel st (idx + 1) := by
-  rw [ioLoop]
+  unfold ioLoop
+  rw [ioLoopT]
   have : slotRevents (st.pfd.getD idx default) = 0 := by unfold slotRevents; rw [hr]
   simp only [hok, Bool.not_true, Bool.false_eq_true, if_false, hfd, this, if_true]
   rw [if_neg (by omega)]
@@ -1934,7 +1938,8 @@ theorem ioLoop_invokes (fuel : Nat) (st : St) (idx : Nat) (a : Nat) (hok : st.is
     (hw : (st.pfd.getD idx default).watch = some a) (hl : st.live a = true) :
     ioLoop (fuel + 1) st idx =
       ioLoop fuel (invokeWatch st a EV_FIRE (.io (st.getW a).fd (condOfRevents (slotRevents (st.pfd.getD idx default))))) (idx + 1) := by
-  rw [ioLoop]
+  unfold ioLoop
+  rw [ioLoopT]
   simp only [hok, Bool.not_true, Bool.false_eq_true, if_false, hfd, hr]
   rw [if_neg (by omega)]
   unfold ioCb
